@@ -36,9 +36,12 @@ class SmoothMap:
         if self.linear:
             return (self.D @ xf).reshape(self.fs)
         out = self.A @ np.sin(self.B @ xf + self.c) + self.D @ xf
-        if self.mixed:      # first half of the outputs purely linear (their finite differences converge at once), sign flipped for odd seeds
-            h = len(out) // 2
-            out[:h] = (self.D @ xf)[:h]
+        if self.mixed:      # ONE nonlinear output depending on x[0] only; all others purely linear (their finite differences converge at
+            # once, and the remaining corrections all have one sign): sign flipped for every other seed
+            lin = self.D @ xf
+            nl = self.A[-1, -1] * np.sin(self.B[-1, 0] * xf[0] + self.c[-1]) + lin[-1]
+            out = lin.copy()
+            out[-1] = nl
             out = self.sgn * out
         return out.reshape(self.fs)
 
@@ -49,8 +52,8 @@ class SmoothMap:
         else:
             J = self.A.astype(np.longdouble) @ (np.cos(self.B.astype(np.longdouble) @ xf + self.c)[:, None] * self.B) + self.D
             if self.mixed:
-                h = J.shape[0] // 2
-                J[:h] = self.D[:h]
+                J = self.D.astype(np.longdouble).copy()
+                J[-1, 0] = J[-1, 0] + np.longdouble(self.A[-1, -1]) * np.cos(np.longdouble(self.B[-1, 0]) * xf[0] + self.c[-1]) * self.B[-1, 0]
                 J = self.sgn * J
         return J.reshape(self.fs + self.xs)
 
